@@ -46,6 +46,9 @@ VARIANTS = {
                  ["-DWITH_EPOLL=OFF"]),
     "tsan-rc": ("gcc", "-O1 -g -fno-omit-frame-pointer -fsanitize=thread -DNDEBUG",
                 ["-DENABLE_THREAD_RECURSIVE_LOCK_CHECK=ON"]),
+    # the repository's other build system: ./autogen.sh && ./configure --enable-thread-safe
+    # (defines COAP_THREAD_SAFE 1 and COAP_THREAD_RECURSIVE_CHECK 1) on a copy of the tree
+    "tsan-at": ("gcc", "-O1 -g -fno-omit-frame-pointer -fsanitize=thread -DNDEBUG", ["autotools"]),
     # assertions on (no NDEBUG), no sanitizer: libcoap's own lock-ownership asserts
     "lockchk": ("gcc", "-O1 -g -fno-omit-frame-pointer", []),
 }
@@ -82,6 +85,8 @@ def ensure_lib(variant):
     library for a variant.  Returns the build directory."""
     cc, cflags, opts = VARIANTS[variant]
     bdir = os.path.join(build_root(), variant)
+    if opts == ["autotools"]:
+        return _ensure_lib_autotools(variant, cc, cflags, bdir)
     with _Lock(os.path.join(build_root(), ".lock-" + variant)):
         if not os.path.exists(os.path.join(bdir, "build.ninja")):
             os.makedirs(bdir, exist_ok=True)
@@ -89,6 +94,32 @@ def ensure_lib(variant):
             _run(["cmake", "-S", REPO, "-B", bdir, "-DCMAKE_C_FLAGS=" + cflags]
                  + CMAKE_COMMON + opts, env=env, what="cmake configure " + variant)
         _run(["cmake", "--build", bdir, "-j", "16"], what="cmake build " + variant)
+    return bdir
+
+
+def _ensure_lib_autotools(variant, cc, cflags, bdir):
+    """autotools builds in the source tree: work on a copy (rsync keeps mtimes, so make only
+    redoes what changed in the repository) under the variant's build directory"""
+    src = os.path.join(bdir, "src")
+    with _Lock(os.path.join(build_root(), ".lock-" + variant)):
+        os.makedirs(src, exist_ok=True)
+        # no --delete: what autogen/configure/make generate in the copy stays; a file removed
+        # from the repository would linger, which a changed Makefile.am re-run would notice
+        _run(["rsync", "-a", "--exclude", "_build", "--exclude", ".git", REPO + "/", src + "/"],
+             what="rsync for " + variant)
+        env = dict(os.environ, CC=cc, CFLAGS=cflags)
+        if not os.path.exists(os.path.join(src, "Makefile")):
+            _run(["sh", "./autogen.sh"], cwd=src, env=env, what="autogen " + variant)
+            _run(["./configure", "--enable-thread-safe", "--disable-doxygen", "--disable-manpages",
+                  "--disable-examples", "--disable-tests", "--with-gnutls", "--disable-shared"],
+                 cwd=src, env=env, what="configure " + variant)
+        _run(["make", "-j", "16"], cwd=src, env=env, what="make " + variant)
+        for name, target in (("libcoap-3.a", os.path.join(src, ".libs", "libcoap-3-gnutls.a")),
+                             ("coap_config.h", os.path.join(src, "coap_config.h")),
+                             ("include", os.path.join(src, "include"))):
+            link = os.path.join(bdir, name)
+            if not os.path.lexists(link):
+                os.symlink(target, link)
     return bdir
 
 
@@ -155,7 +186,7 @@ def ensure_harness(variant, name, sources, extra_cflags=(), extra_ldflags=(),
 
 def ensure_thr(variant):
     """the C13 stress program against a thread-safe library variant"""
-    extra = ["-DVF_RC"] if variant.endswith("-rc") else []
+    extra = ["-DVF_RC"] if variant.endswith(("-rc", "-at")) else []
     return ensure_harness(variant, "thr", ["thr.c"], extra_cflags=extra,
                           wraps=["coap_lock_lock_func"])
 
